@@ -18,15 +18,22 @@ pub mod format {
 //@ type src/features/line_numbers.rs LineNumbersData noderive
 
 /// `line_numbers.iter().map(|(n, d)| n.saturating_add(*d)).max().unwrap()` (R3): the largest end line of the hunk.
+pub open spec fn sat_add(a: usize, b: usize) -> usize { if a + b > usize::MAX { usize::MAX } else { (a + b) as usize } }
+/// the largest `start + length` over ALL files of the hunk (two for an ordinary diff, more for a combined one)
+pub open spec fn max_end(s: Seq<(usize, usize)>) -> usize
+    decreases s.len()
+{ if s.len() == 0 { 0 } else { let m = max_end(s.drop_last()); let e = sat_add(s.last().0, s.last().1); if e > m { e } else { m } } }
 #[verifier::external_body]
 pub fn verif_max_line_end(line_numbers: &[(usize, usize)]) -> (r: usize)
     requires line_numbers@.len() >= 1,  // @C03:init.max.of.nonempty
+    ensures r == max_end(line_numbers@),
 { unimplemented!() }
+pub uninterp spec fn log10_floor(n: usize) -> usize;
 /// `(n as f64).log10().floor() as usize` (R3; floating point is outside the verifier): at most 19 for a 64-bit n,
 /// and 0 for n == 0 (`log10(0) = -inf`, and a float-to-int cast saturates at 0).
 #[verifier::external_body]
 pub fn verif_log10_floor(n: usize) -> (r: usize)
-    ensures r <= 19,
+    ensures r <= 19, r == log10_floor(n),
 { unimplemented!() }
 
 //@ fn src/features/line_numbers.rs linenumbers_and_styles spec=line_numbers.linenumbers_and_styles
